@@ -47,6 +47,9 @@ impl RightCtxDFAs<StateIdx> {
         let mut nfa: NFA<()> = NFA::new();
         nfa.add_regex(bindings, right_ctx, None, ());
 
+        #[cfg(lexgen_verif)]
+        crate::verif::append("ctx_nfa", crate::nfa::verif::nfa_json(&nfa));
+
         let dfa = nfa_to_dfa(&nfa);
         self.dfas.push(dfa);
 
